@@ -160,6 +160,59 @@ def main(argv):
                 advs = ";".join(",".join(hx(("%s:%s" % ((ip if use_vpc else h), p)).encode()) for h, ip, p in nodes) for nodes in hist)
                 lines.append(f"aws.reconf advs={advs}")
                 metas.append(("reconf", {"use_vpc": use_vpc, "history": desc}, sorted(client.hasher.nodes)))
+    # failover episode + scale-down: a node that was marked dead and is then no longer advertised must stay out for good
+    import pymemcache.client.hash as H
+    clock = [1000.0]
+    import pymemcache.client.ext.aws_ec_client as A
+    real_time, real_time_a = H.time, A.time
+    H.time = A.time = type("T", (), {"time": staticmethod(lambda: clock[0])})
+    try:
+        for use_vpc in (True, False):
+            for ra in (0, 1, 2):
+                C = Cluster(rng)
+                nodes = pool_nodes[:3]
+                C.advertised = list(nodes)
+                dead = nodes[1]
+                dead_addr = ((dead[1] if use_vpc else dead[0]), str(dead[2]))
+
+                def hook(conn, dead_addr=dead_addr, C=C):
+                    if (str(conn.addr[0]), str(conn.addr[1])) == dead_addr and C.refuse:
+                        conn.connected = False
+                        raise ConnectionRefusedError(111, "refused")
+                C.refuse = True
+                C.world.connect_hook = hook
+                C.world.tag = "failover"
+                case = {"use_vpc": use_vpc, "retry_attempts": ra, "scenario": "node marked dead, then dropped from the advertisement, then dead_timeout elapses"}
+                ctx.case(("failover-scaledown", use_vpc, ra))
+                ctx.count("failover-scale-down")
+                try:
+                    cl = AWSElastiCacheHashClient(CFG, socket_module=C.sm, use_vpc=use_vpc, default_noreply=False, retry_attempts=ra, retry_timeout=1, dead_timeout=60, ignore_exc=True)
+                    for rnd in range(ra + 3):
+                        clock[0] += 2
+                        for k in keys:
+                            cl.get(k)
+                    C.advertised = [n for n in nodes if n != dead]
+                    C.version += 1
+                    cl.reconfigure_nodes()
+                    C.refuse = False
+                    nled = len(C.world.ledger)
+                    for step in (30, 40, 61, 200):
+                        clock[0] += step
+                        for k in keys:
+                            cl.set(k, b"v", noreply=False)
+                            cl.get(k)
+                    adv = {((ip if use_vpc else h), str(p)) for h, ip, p in C.advertised}
+                    contacted = {(str(c.addr[0]), str(c.addr[1])) for c in C.world.conns if c.addr is not None and any(e[0] == "connect" and e[1] == c.id for e in C.world.ledger[nled:])}
+                    bad = {a for a in contacted if a not in adv and not a[0].startswith("cfg.")}
+                    names = {"%s:%s" % a for a in adv}
+                    if bad or set(cl.hasher.nodes) != names or set(cl.clients) != names:
+                        ctx.violation("a node that is no longer advertised came back into rotation / was contacted after a failover episode",
+                                      dict(case, contacted_unadvertised=sorted(bad), rotation=sorted(cl.hasher.nodes), clients=sorted(cl.clients), advertised=sorted(names)),
+                                      tags=["failover-scale-down"])
+                except Exception as e:
+                    ctx.violation("the failover + scale-down scenario raised", dict(case, error=repr(e)[:120]), tags=["failover-scale-down"])
+    finally:
+        H.time, A.time = real_time, real_time_a
     # ERROR endpoint: must fail with a memcached error, not an internal Python error
     for mode in ("error", "error-eof"):
         for use_vpc in (True, False):
